@@ -4,7 +4,12 @@ itself on the implementation's output and knows nothing about the Lean model."""
 import re
 
 KINDS = ["accept", "created", "msg", "closed", "destroyed"]
-RESULT = re.compile(r"^(ok|skip|finished|bad-op|E[A-Z0-9]+)$")
+# Finding D20d (fixes/D20d-rate-limit-stale-descriptor.*, not yet in /repo): on the socket transport a rate-limit
+# change while a disconnected connection is still in the list re-registers its stale descriptor numbers.  Until
+# the repair is committed the generators stay outside that class: socket transport => `rate` only before the
+# first connect.  Set to True once the repair is in /repo (and move the witness to corpus/C04).
+RATE_ANYWHERE_ON_SOCK = True
+RESULT = re.compile(r"^(ok|skip|finished|refused|bad-op|E[A-Z0-9]+)$")
 
 
 # ----------------------------------------------------------------------------- generator
@@ -45,8 +50,11 @@ def gen_scripts(rng, cross):
 def gen_case(rng):
     """random history; ends with `finish` so that the oracle can demand completed life cycles"""
     cross = rng.choice([0.0, 0.0, 0.15, 0.4])
-    ops = ["svc " + rng.choice(["shm", "sock"])]
+    t = rng.choice(["shm", "sock"])
+    ops = ["svc " + t]
     ops += gen_scripts(rng, cross)
+    if rng.random() < 0.2:
+        ops.append("rate " + rng.choice(["slow", "normal", "fast"]))
     nconn = 0
     for _ in range(rng.randint(3, 22)):
         r = rng.random()
@@ -79,8 +87,16 @@ def gen_case(rng):
             ops.append("half %d" % K)
         elif r < 0.97:
             ops.append("halfgone %d" % K)
-        else:
+        elif r < 0.985:
             ops += ["script %s %s" % (k, gen_entry(rng, k, cross)) for k in rng.sample(KINDS, 2)]
+        elif t == "shm" or nconn == 0 or RATE_ANYWHERE_ON_SOCK:
+            ops.append("rate " + rng.choice(["slow", "normal", "fast"]))
+        # a pipelining client / a failing poll handler (independent of the mix above)
+        r = rng.random()
+        if r < 0.08:
+            ops.append("sendn %d %d" % (K, rng.randint(2, 8)))
+        elif r < 0.12:
+            ops.append("fault %s %d" % (rng.choice(["add", "add", "add", "del", "mod"]), rng.randint(1, 3)))
     ops.append("finish")
     return ops
 
@@ -92,8 +108,34 @@ def gen_shaped(rng):
     disconnect their neighbours while the service is destroyed"""
     t = rng.choice(["shm", "sock"])
     ops = ["svc " + t]
-    shape = rng.randrange(8)
-    if shape == 0:      # reference outlives the peer, then explicit disconnect / destroy
+    shape = rng.randrange(11)
+    if shape == 8:      # a pipelining client: a batch of requests is queued before the dispatcher runs,
+                        # msg_process disconnects / takes / drops references / sends on the k-th of them
+        n = rng.randint(2, 9)
+        ent = [rng.choice(["-", "-", "-", "r:s", "e:s", "i"]) for _ in range(n + 2)]
+        for _ in range(rng.randint(1, 2)):
+            ent[rng.randrange(n)] = rng.choice(["d:s", "d:s", "d:s,u:s", "r:s,d:s", "d:s,d:s", "u:s", "d:2", "d:s,e:s"])
+        ops += ["script msg " + " ".join(ent)]
+        if rng.random() < 0.4:
+            ops.append("rate " + rng.choice(["slow", "normal", "fast"]))
+        ops += ["connect 0"]
+        if rng.random() < 0.3:
+            ops += ["connect 1"]
+        if rng.random() < 0.3:
+            ops += ["ref 1"]
+        ops += ["sendn 0 %d" % n, rng.choice(["sendn 0 3", "send 0", "gone 0", "sendn 1 2", "unref 1"]),
+                rng.choice(["gone 0", "destroy", "iter"])]
+    elif shape in (9, 10):    # the application's dispatch_add fails for the n-th descriptor: handshake socket of a
+                        # connect / raw peer, or the connection's own descriptor(s); with and without other
+                        # connections / references alive; the service must stay usable afterwards
+        pre = rng.choice([[], [], ["connect 3"], ["connect 3", "ref 1"], ["half 5"]])
+        ops += pre
+        ops += ["fault add %d" % rng.randint(1, 3 if t == "sock" else 2)]
+        ops += [rng.choice(["connect 0", "connect 0", "half 0"]), rng.choice(["connect 1", "half 1", "connect 0"]),
+                rng.choice(["send 1", "sendn 1 3", "connect 2", "iter"]),
+                rng.choice(["gone 1", "destroy", "gone 3", "halfgone 1", "fault add 1"]),
+                rng.choice(["connect 2", "destroy", "unref 1", "halfgone 5", "send 3"])]
+    elif shape == 0:      # reference outlives the peer, then explicit disconnect / destroy
         ops += ["connect 0", "ref 1", rng.choice(["gone 0", "disc 1"]),
                 rng.choice(["disc 1", "destroy", "iter", "ev 1"]), rng.choice(["unref 1", "disc 1", "run"])]
     elif shape == 1:    # retry pending, then somebody else disconnects
@@ -229,10 +271,36 @@ def check_conn(c, k, finished):
     return None
 
 
+def check_served(ops, out):
+    """service liveness: every connect that is neither skipped nor refused reaches connection_accept;
+    a handshake is refused only when a dispatch_add fault has been armed"""
+    groups, cur = [], []
+    for line in out:
+        cur.append(line)
+        if RESULT.match(line):
+            groups.append(cur)
+            cur = []
+    lines = [o for o in ops if not o.startswith("case")]
+    armed = False
+    for op, g in zip(lines, groups):
+        w = op.split()
+        if w[0] == "fault" and w[1] == "add":
+            armed = True
+        if w[0] in ("connect", "half") and g[-1] == "refused" and not armed:
+            return "%s: the handshake was dropped although no poll handler failed" % op
+        if w[0] == "connect" and g[-1] not in ("skip", "refused", "bad-op"):
+            if not any(l.startswith("cb accept ") for l in g):
+                return "%s: a connection attempt on a live service was not served (no connection_accept)" % op
+    return None
+
+
 def oracle(ops, out):
     conns, problems, finished = parse(out)
     if problems:
         return problems[0]
+    d = check_served(ops, out)
+    if d:
+        return d
     for c in sorted(conns):
         d = check_conn(c, conns[c], finished)
         if d:
@@ -266,4 +334,12 @@ def tags(ops, out):
         t.add("destroy-mid-case")
     if any(l.startswith("half ") for l in ops):
         t.add("pending-handshake")
+    if re.search(r"cb msg c(\d+)\n(do .*\n)*cb msg c\1", text):
+        t.add("burst")
+    if re.search(r"cb msg c(\d+)\n(do .*\n)*cb msg c\1\n(do [a-z] c\d+\n)*do d c\1", text):
+        t.add("disc-in-burst-not-first")
+    if "refused" in out:
+        t.add("fault-handshake-add")
+    if "ENOMEM" in out:
+        t.add("fault-connection-add")
     return t
